@@ -27,6 +27,8 @@ type cliResult struct {
 	raw       []rawTable // SQLite's own catalogue of db0
 	created   []string   // tables `schema inspect --format '{{ sql . }}'` creates
 	hasDump   bool
+	// tie of Sqlite/ExportRealm.v: the object sequence of `{{ sql . }}` and of `{{ sql . "  " }}`
+	scriptCase, scriptObs, indentObs string
 }
 
 func fileDB(path string) *sql.DB {
@@ -121,9 +123,62 @@ func cliLoop(dir, script, history string, post []string) *cliResult {
 	db2 := fileDB(filepath.Join(dir, "db2"))
 	err := execScript(db2, q1.Stdout)
 	db2.Close()
+	if dbi := fileDB(filepath.Join(dir, "db0")); true {
+		if si, _, ierr := inspectDB(dbi); ierr == nil {
+			r.scriptCase, r.scriptObs = scriptTie(si, q1.Stdout, nil, err)
+		}
+		dbi.Close()
+	}
 	if err != nil {
 		add("sql-exec-error", err.Error())
 	} else {
+		nsym := len(r.syms)
+		defer func() {
+			// the same export with an indent argument (cmdlog.sqlInspect(report, indent)): only when the plain one is clean
+			if len(r.syms) != 0 || nsym != 0 || r.scriptCase == "" {
+				return
+			}
+			q3 := insp("--format", `{{ sql . "  " }}`)
+			if q3.Exit != 0 {
+				add("sql-indent-plan-error", q3.Stderr)
+				return
+			}
+			r.indentObs = "objs " + strings.Join(exportObjects(q3.Stdout), ",") + " exec=ok"
+			if len(exportObjects(q3.Stdout)) == 0 {
+				r.indentObs = "objs - exec=ok"
+			}
+			// cmdlog.sqlInspect hands the argument to the planner: the CLI's text = the in-process export with PlanOptions.Indent
+			if dbi := fileDB(filepath.Join(dir, "db0")); true {
+				if si, drvi, ierr := inspectDB(dbi); ierr == nil {
+					if want, _, e := sqlExport(drvi, si, "  "); e == nil && want != q3.Stdout {
+						add("sql-indent-cli-differs", "`{{ sql . \"  \" }}` is not the planner's text with Indent = two spaces: "+firstDiff(strings.Split(want, "\n"), strings.Split(q3.Stdout, "\n")))
+					}
+				}
+				dbi.Close()
+			}
+			db4 := fileDB(filepath.Join(dir, "db4"))
+			e4 := execScript(db4, q3.Stdout)
+			db4.Close()
+			if e4 != nil {
+				add("sql-indent-exec-error", e4.Error())
+				return
+			}
+			d1 := clirun.Run(dir, nil, "schema", "diff", "--from", "sqlite://db0", "--to", "sqlite://db4")
+			d2 := clirun.Run(dir, nil, "schema", "diff", "--from", "sqlite://db4", "--to", "sqlite://db0")
+			if d1.Exit != 0 || d2.Exit != 0 || strings.TrimSpace(d1.Stdout) != synced || strings.TrimSpace(d2.Stdout) != synced {
+				add("sql-indent-diff", "db0->db4: "+d1.Stdout+d1.Stderr+" ; db4->db0: "+d2.Stdout+d2.Stderr)
+			}
+			if d := firstDiff(raw0, rawOf("db4")); d != "" {
+				add("sql-indent-raw-catalogue", d)
+			}
+			// the indented text is what SQLite stores: the regex recovery must read it back (inspect again, export again)
+			// (compared with the export of db2, the database created from the plain export: same statements, other white space)
+			q5 := clirun.Run(dir, nil, "schema", "inspect", "--url", "sqlite://db4", "--format", "{{ sql . }}")
+			q6 := clirun.Run(dir, nil, "schema", "inspect", "--url", "sqlite://db2", "--format", "{{ sql . }}")
+			if q5.Exit != 0 || q6.Exit != 0 || q5.Stdout != q6.Stdout {
+				add("sql-indent-reinspect", "the database created from the indented export and the one created from the plain export are exported differently: "+firstDiff(strings.Split(q6.Stdout+q6.Stderr, "\n"), strings.Split(q5.Stdout+q5.Stderr, "\n")))
+			}
+		}()
 		d1 := clirun.Run(dir, nil, "schema", "diff", "--from", "sqlite://db0", "--to", "sqlite://db2")
 		d2 := clirun.Run(dir, nil, "schema", "diff", "--from", "sqlite://db2", "--to", "sqlite://db0")
 		if d1.Exit != 0 || d2.Exit != 0 || strings.TrimSpace(d1.Stdout) != synced || strings.TrimSpace(d2.Stdout) != synced {
@@ -259,6 +314,13 @@ func runCLI(w *out.W, tier string) {
 		tags := ""
 		if c.lc.ast != nil {
 			tags = c.lc.ast.tags()
+		}
+		if c.res.scriptCase != "" {
+			w.Case(c.lc.id+"s", c.res.scriptCase, []string{c.res.scriptObs})
+			if c.res.indentObs != "" && strings.HasPrefix(c.res.scriptCase, "script ") {
+				w.Case(c.lc.id+"i", c.res.scriptCase, []string{c.res.indentObs})
+				w.Count("indent-export")
+			}
 		}
 		if c.res.hasDump {
 			cl, ob := dumpTie(c.res.raw, c.res.created)
